@@ -260,7 +260,21 @@ def one_of(
                 # add parse action to return symbols as specified, not in random
                 # casing as found in input string
                 symbol_map = {sym.lower(): sym for sym in symbols}
-                ret.add_parse_action(lambda s, l, t: symbol_map[t[0].lower()])
+
+                def as_given(s, l, t):
+                    found = t[0]
+                    try:
+                        return symbol_map[found.lower()]
+                    except KeyError:
+                        # re.IGNORECASE equates a few characters that str.lower()
+                        # does not (such as "s" and U+017F): look the symbol up
+                        # the way the regex matched it
+                        for sym in symbols:
+                            if re.fullmatch(re.escape(sym), found, re.IGNORECASE):
+                                return sym
+                        return found
+
+                ret.add_parse_action(as_given)
 
             return ret
 
